@@ -254,25 +254,54 @@ func variantMask(names ...string) uint16 {
 //   - cmdsB (UID flavours first, other consumption styles): responses routed by flavour/style
 //   - bare (no handler): only handleFetch does anything without a handler (go msg.discard())
 //   - greet: only status responses look at greetingRecv
-//   - idle: continuation requests, and everything when asked for (full)
-func maskFor(in []byte, full bool) uint16 {
+//   - idle: continuation requests
+//
+// mode mFull: all six; mGrammar: the rule above; mMutation: cmdsB only for the responses whose
+// accessors differ between the flavours (FETCH, SEARCH/ESEARCH, SORT, THREAD), greet only when the
+// stream starts with a status response.
+const (
+	mFull = iota
+	mGrammar
+	mMutation
+	mBasic // cmdsA and unsol only
+	mRaw   // cmdsA, unsol, idle, greet (+ the keyword rule)
+)
+
+func maskFor(in []byte, mode int) uint16 {
+	if mode == mFull {
+		return 1<<numVariants - 1
+	}
 	m := variantMask("cmdsA", "unsol")
+	if mode == mBasic {
+		return m
+	}
+	if mode == mRaw {
+		m |= variantMask("idle", "greet")
+	}
 	up := bytes.ToUpper(in)
 	has := func(s string) bool { return bytes.Contains(up, []byte(s)) }
-	if has("FETCH") || has("SEARCH") || has("SORT") || has("THREAD") || has("COPYUID") || has("LIST") || has("EXPUNGE") || has("STATUS") {
+	if has("FETCH") || has("SEARCH") || has("SORT") || has("THREAD") {
 		m |= variantMask("cmdsB")
 	}
 	if has("FETCH") {
 		m |= variantMask("bare")
 	}
-	if has("OK") || has("NO") || has("BAD") || has("BYE") || has("PREAUTH") || has("CAPABILITY") {
-		m |= variantMask("greet")
-	}
 	if bytes.HasPrefix(in, []byte("+")) || bytes.Contains(in, []byte("\n+")) {
 		m |= variantMask("idle")
 	}
-	if full {
-		m = 1<<numVariants - 1
+	if mode == mGrammar {
+		if has("COPYUID") || has("LIST") || has("EXPUNGE") || has("STATUS") {
+			m |= variantMask("cmdsB")
+		}
+		if has("OK") || has("NO") || has("BAD") || has("BYE") || has("PREAUTH") || has("CAPABILITY") {
+			m |= variantMask("greet")
+		}
+	} else {
+		for _, p := range []string{"* OK", "* NO", "* BAD", "* BYE", "* PREAUTH"} {
+			if bytes.HasPrefix(up, []byte(p)) {
+				m |= variantMask("greet")
+			}
+		}
 	}
 	return m
 }
@@ -433,7 +462,7 @@ type feeder struct {
 	order  []string
 }
 
-func (f *feeder) add(family string, in []byte, full bool) {
+func (f *feeder) add(family string, in []byte, mode int) {
 	h := fnv.New64a()
 	h.Write(in)
 	k := h.Sum64()
@@ -446,7 +475,7 @@ func (f *feeder) add(family string, in []byte, full bool) {
 		f.order = append(f.order, family)
 	}
 	f.counts[family]++
-	f.batch = append(f.batch, pending{family: family, input: append([]byte{}, in...), mask: maskFor(in, full)})
+	f.batch = append(f.batch, pending{family: family, input: append([]byte{}, in...), mask: maskFor(in, mode)})
 	if len(f.batch) >= f.size {
 		f.flush()
 	}
@@ -454,7 +483,9 @@ func (f *feeder) add(family string, in []byte, full bool) {
 
 func (f *feeder) flush() {
 	if len(f.batch) > 0 {
-		f.p.ch <- f.batch
+		if os.Getenv("C11_DRY") == "" {
+			f.p.ch <- f.batch
+		}
 		f.batch = nil
 	}
 }
@@ -498,12 +529,14 @@ func main() {
 	gwg.Add(1)
 	go func() {
 		defer gwg.Done()
-		runGrowth(thorough, gres)
+		if os.Getenv("C11_DRY") == "" {
+			runGrowth(thorough, gres)
+		}
 	}()
 
 	// (i) grammar derivations
 	for _, t := range tops {
-		derive(t, kGrammar, func(s []byte) { f.add("grammar", s, false) })
+		derive(t, kGrammar, func(s []byte) { f.add("grammar", s, mGrammar) })
 	}
 	// default derivation of every production with every variant, and pairs of them
 	var defaults [][]byte
@@ -512,36 +545,41 @@ func main() {
 			defaults = append(defaults, append([]byte{}, s...))
 		})
 	}
-	for _, a := range defaults {
-		f.add("grammar-default-all-variants", a, true)
-	}
-	// re-adding under "full" is suppressed by the dedup, so run the defaults explicitly
+	// the defaults were already seen by the de-duplication above: run them explicitly under all six variants
 	{
 		var b []pending
 		for _, a := range defaults {
-			b = append(b, pending{family: "grammar-default-all-variants", input: a, mask: 1<<numVariants - 1})
+			b = append(b, pending{family: "grammar-default-all-variants", input: a, mask: maskFor(a, mFull)})
 		}
 		f.counts["grammar-default-all-variants"] += int64(len(b))
 		f.order = append(f.order, "grammar-default-all-variants")
-		p.ch <- b
+		if os.Getenv("C11_DRY") == "" {
+			p.ch <- b
+		}
 	}
 	for _, a := range defaults {
 		for _, b := range defaults {
-			f.add("grammar-pairs", append(append([]byte{}, a...), b...), false)
+			f.add("grammar-pairs", append(append([]byte{}, a...), b...), mGrammar)
 		}
 	}
 	fmt.Fprintf(os.Stderr, "c11: grammar fed: %v t=%s\n", f.counts, time.Since(t0).Round(time.Millisecond))
 	// (ii) token mutations of the derivations with budget kToken
 	for _, t := range tops {
 		derive(t, kToken, func(s []byte) {
-			tokenMutations(string(s), func(m string) { f.add("token-mutations", []byte(m), false) })
+			tokenMutations(string(s), func(m string) { f.add("token-mutations", []byte(m), mMutation) })
 		})
 	}
 	fmt.Fprintf(os.Stderr, "c11: token mutations fed: %v t=%s\n", f.counts, time.Since(t0).Round(time.Millisecond))
 	// (iii) byte mutations and truncations of the base responses
 	for _, b := range baseResponses {
-		f.add("base-responses", []byte(b), true)
-		byteMutations(b, thorough, func(m []byte) { f.add("byte-mutations", m, false) })
+		f.add("base-responses", []byte(b), mFull)
+		byteMutations(b, thorough, func(m []byte, structural bool) {
+			if structural {
+				f.add("byte-mutations", m, mMutation)
+			} else {
+				f.add("byte-mutations", m, mBasic)
+			}
+		})
 	}
 	fmt.Fprintf(os.Stderr, "c11: byte mutations fed: %v t=%s\n", f.counts, time.Since(t0).Round(time.Millisecond))
 	// (iv) raw strings after a prefix
@@ -551,8 +589,8 @@ func main() {
 	}{{"* ", rawLen}, {"", rawLen - 1}, {"* 1 ", rawLen - 1}, {"T22 ", rawLen - 1}, {"+", rawLen - 1}, {"* OK [", rawLen - 1}, {"* 1 FETCH (", rawLen - 1}, {"* ESEARCH ", rawLen - 1}}
 	for _, pf := range prefixes {
 		rawStrings(pf.n, func(s string) {
-			f.add("raw", []byte(pf.p+s), true)
-			f.add("raw", []byte(pf.p+s+"\r\n"), true)
+			f.add("raw", []byte(pf.p+s), mRaw)
+			f.add("raw", []byte(pf.p+s+"\r\n"), mRaw)
 		})
 	}
 	f.flush()
@@ -705,7 +743,7 @@ func confirm(c *candidate) map[string]interface{} {
 	mask := variantMask(c.Variant)
 	flags := uint8(0)
 	if c.Death {
-		mask = maskFor(c.Input, true)
+		mask = maskFor(c.Input, mFull)
 		flags = fForce
 	}
 	for i := 0; i < 5; i++ {
